@@ -71,6 +71,23 @@ class Cons:
             self._ifv = [mk(f0), mk(f1), mk(f0)]
         return self._ifv[variant]
 
+    def copy_out(self, how):
+        """Another party copies / pickles the interpreted function g#0 and an expression over it."""
+        import copy as _copy
+        import pickle as _pickle
+        f0 = self.ifv(0)
+        node = self.em.InterpretedFunctionExp(f0, [self.em.Int(0)])
+        if how == "pickle":
+            _pickle.dumps(f0)
+            _pickle.dumps(node.interpreted_function())
+        else:
+            _copy.deepcopy(f0)
+
+    def do(self, op):
+        if op.get("op") == "copy_out":
+            return self.copy_out(op.get("how"))
+        return self.build(op["d"])
+
     def arg(self, d):
         """An argument position: may be a python literal or a raw model object."""
         if d[0] == "lit":
@@ -370,6 +387,15 @@ def negations_typed(d, world):
     return all(negations_typed(c, world) for c in d[1:] if isinstance(c, list))
 
 
+def payload_repr(n):
+    """The payload as far as it can be observed: for an interpreted function also the identity of its callable."""
+    pl = n._content.payload
+    r = repr(pl)
+    if n.is_interpreted_function_exp():
+        r += "#" + str(id(pl.function)) if pl.function is not None else "#no-callable"
+    return r
+
+
 def _unv(x):
     """What build.render shows of a normal form: the two interpreted functions called g are both rendered `g`."""
     if isinstance(x, tuple):
@@ -561,6 +587,7 @@ class ConsHist(Engine):
                 plain.append([q, [w1], body])
                 plain.append([q, ro.choice([[w1, w1], [w1, w2, w1], [w2, w1, w1]]), body])
         # two interpreted functions that differ only in their callable are different payloads
+        want_pickle = False
         if ro.random() < 0.5:
             arg = ro.choice([["f", fluents[1]["name"]], ["int", ro.randint(0, 5)]])
             for v_ in ro.sample([0, 1, 2, 0, 1], 4):
@@ -568,6 +595,7 @@ class ConsHist(Engine):
             b_ = ["int", ro.randint(0, 5)]
             plain.append(["le", ["ifv", 0, arg], b_])
             plain.append(["le", ["ifv", 1, arg], b_])
+            want_pickle = True
         # sharing
         for i in range(ro.randint(2, 6)):
             a, b = ro.choice(plain), ro.choice(plain)
@@ -621,10 +649,15 @@ class ConsHist(Engine):
                 else:
                     d = variant(None, e) if ro.random() < 0.7 else e
                 ops.append({"op": "cons", "d": d})
+        if want_pickle:
+            # another party copies / pickles what the environment holds (the parallel engines do): nothing an existing
+            # node is made of may change because of it
+            for _ in range(ro.randint(1, 3)):
+                ops.insert(ro.randrange(len(ops) + 1), {"op": "copy_out", "how": ro.choice(["pickle", "deepcopy"])})
         if profile == "async":
             for _ in range(rf.choice([1, 2])):
                 pos = rf.randint(1, max(1, len(ops) - 8))
-                if not ops[pos].get("ill"):
+                if "d" in ops[pos] and not ops[pos].get("ill"):
                     ops[pos]["fault"] = {"kind": "async_mem", "frac": round(rf.random(), 4)}
         return {"engine": self.name, "world": world, "ops": ops}
 
@@ -634,7 +667,7 @@ class ConsHist(Engine):
         if tier != "thorough":
             return None
         ops = script["ops"]
-        idx = [i for i, op in enumerate(ops) if op.get("fault")]
+        idx = [i for i, op in enumerate(ops) if op.get("fault") and "d" in op]
         if not idx:
             return None
         i = idx[0]
@@ -645,7 +678,7 @@ class ConsHist(Engine):
         C2 = Cons(W2)
         for op in ops[:i]:
             try:
-                C2.build(op["d"])
+                C2.do(op)
             except Exception:
                 pass
         with LineFault(at=None) as lf:
@@ -681,7 +714,7 @@ class ConsHist(Engine):
             C2 = Cons(W2)
             for op in ops[:i]:
                 try:
-                    C2.build(op["d"])
+                    C2.do(op)
                 except BuildError:
                     raise
                 except Exception:
@@ -696,6 +729,21 @@ class ConsHist(Engine):
         for i, op in enumerate(ops):
             ctx.op_index = i
             ctx.ops += 1
+            if op.get("op") == "copy_out":
+                try:
+                    C.copy_out(op.get("how"))
+                    ctx.probe("copied-out:" + str(op.get("how")))
+                except Exception as ex:
+                    ctx.ev(i, "copy_out", type(ex).__name__)
+                # (the invariants over every node ever returned are checked below, as after every operation)
+                for sid, (n, nid, nt, argids, pl) in snaps.items():
+                    ok = (n.node_id == nid and n.node_type == nt and tuple(id(a) for a in n.args) == argids
+                          and payload_repr(n) == pl)
+                    ctx.check("C16.immutable", ok, f"after op {i} (copy_out): node {nid} changed operator, children or payload",
+                              cls="mutated")
+                continue
+            if "d" not in op:
+                continue
             d = op["d"]
             try:
                 key = ordered_key(d, world)
@@ -778,7 +826,7 @@ class ConsHist(Engine):
             ids = {}
             for sid, (n, nid, nt, argids, pl) in snaps.items():
                 ok = (n.node_id == nid and n.node_type == nt and tuple(id(a) for a in n.args) == argids
-                      and repr(n._content.payload) == pl)
+                      and payload_repr(n) == pl)
                 ctx.check("C16.immutable", ok, f"after op {i}: node {nid} changed operator, children or payload",
                           cls="mutated")
                 if nid in ids and ids[nid] is not n:
@@ -797,7 +845,7 @@ class ConsHist(Engine):
             n = stack.pop()
             if id(n) in snaps:
                 continue
-            snaps[id(n)] = (n, n.node_id, n.node_type, tuple(id(a) for a in n.args), repr(n._content.payload))
+            snaps[id(n)] = (n, n.node_id, n.node_type, tuple(id(a) for a in n.args), payload_repr(n))
             stack.extend(n.args)
 
 
